@@ -242,6 +242,16 @@ func (f *Polynomial) quoRemWithIgnore(
 		return
 	}
 
+	for _, g := range list {
+		if g.IsZero() {
+			err = errors.New(
+				op, errors.InputValue,
+				"Cannot divide by the zero polynomial",
+			)
+			return
+		}
+	}
+
 	r = f.baseRing.Zero()
 	p := f.Copy()
 
@@ -292,6 +302,16 @@ func (f *Polynomial) Rem(list ...*Polynomial) (r *Polynomial, err error) {
 	if tmp := checkErrAndCompatible(op, f, list...); tmp != nil {
 		err = tmp.Err()
 		return
+	}
+
+	for _, g := range list {
+		if g.IsZero() {
+			err = errors.New(
+				op, errors.InputValue,
+				"Cannot divide by the zero polynomial",
+			)
+			return
+		}
 	}
 
 	r = f.baseRing.Zero()
